@@ -205,6 +205,36 @@ def _dict_hash_later():
     return d
 
 
+# --- outside the fault model of the heap (recorded finding C06/unguarded-type-name-and-text-methods): never described
+class _MetaNameRaises(type):
+    @property
+    def __name__(cls):
+        raise RuntimeError('meta name')
+
+
+class WithHostileMeta(metaclass=_MetaNameRaises):
+    pass
+
+
+class StartswithRaises(str):
+    def startswith(self, *a):
+        raise RuntimeError('startswith')
+
+
+class LenRaisesStr(str):
+    def __len__(self):
+        raise RuntimeError('strlen')
+
+
+class StrReturnsSubclass:
+    def __str__(self):
+        return LenRaisesStr('abc')
+
+
+UNMODELLED = {'meta_name_raises': WithHostileMeta, 'key_startswith_raises': lambda: {StartswithRaises('k'): 1},
+              'str_returns_str_subclass': StrReturnsSubclass}
+
+
 HOSTILE = {'dict_hash_later': _dict_hash_later, 'class_prop_raises': ClassPropRaises, 'proxy': Proxy, 'getattr_runtime': GetattrRuntimeDict,
            'dict_len_raises': lambda: DictLenRaises(a=1), 'dict_keys_raise': lambda: DictKeysRaise(a=1, b=2),
            'slots_getattr': SlotsGetattrRuntime, 'getattribute': GetattributeRuntime, 'imposter_list': ImposterList,
@@ -313,6 +343,8 @@ def build(specs):
             objs[i] = HOSTILE[s['k']]()
         elif t == 'outside':
             objs[i] = OUTSIDE[s['k']]()
+        elif t == 'unmodelled':
+            objs[i] = UNMODELLED[s['k']]()
         else:
             raise ValueError('unknown spec %r' % (s,))
         done[i] = True
@@ -684,8 +716,8 @@ def run_case(case):
     obs = d['obs']
     glb, host_locals, frames_locals = d['glb'], d['host_locals'], d['frames_locals']
     global _LIVE
-    if has_outside(case):
-        # a value whose __str__ raises a BaseException: outside the modelled domain, nothing of it is probed here
+    if has_outside(case) or has_unmodelled(case):
+        # a value whose __str__ raises a BaseException, or one outside the fault model of the heap: outside the modelled domain, nothing of it is probed here
         obs['snapshots'] = [dump_snap(s, lambda h: None) for s in d['pushed']]
         _TOKEN[0] += 1
         obs['live_token'] = _TOKEN[0]
@@ -1678,6 +1710,10 @@ def judge_total(case, obs, live):
 
 def has_hostile(case):
     return any(s['t'] == 'hostile' for s in case['objs'])
+
+
+def has_unmodelled(case):
+    return any(s['t'] == 'unmodelled' for s in case['objs'])
 
 
 def has_outside(case):
